@@ -372,60 +372,87 @@ end Cone
 
 /-! ## constructors, `frommatrix`, `__getitem__`: bookkeeping of the absolute position
 
-`ParallelBeamGeometry` stores `det_pos_init` as an ABSOLUTE vector (`det_pos_init +=
-translation` in the constructors) together with `translation`.  `__getitem__` re-invokes the
-constructor with stored arguments.  What is modelled here is exactly which vector is handed
-back to the constructor and what the in-place `+=` does to arrays that are shared. -/
+`ParallelBeamGeometry` stores `det_pos_init` as an ABSOLUTE vector (`det_pos_init =
+det_pos_init + translation` in the constructors) together with `translation`.
+`__getitem__` re-invokes the constructor with stored arguments.  What is modelled here is
+exactly which vector is handed back to the constructor. -/
 
-/-- The part of the state of a parallel-beam geometry concerned: `pos = self.det_pos_init`,
-`posArg` = current content of what `__getitem__` passes as `det_pos_init`
-(`self.det_pos_init` itself for `Parallel2dGeometry`, `self._det_pos_init_arg` for
-`Parallel3dAxisGeometry`), `t = self.translation`. -/
+/-- The part of the state of a parallel-beam geometry concerned: `pos = self.det_pos_init`
+(absolute), `posArg = self._det_pos_init_arg` (the constructor argument as given, `none` if
+it was derived from the axis; only used by `Parallel3dAxisGeometry`), `t = self.translation`. -/
 structure PosState (V : Type) where
   pos : V
   posArg : Option V
-  /-- `pos` and `posArg` are one and the same array object -/
-  shared : Bool
   t : V
   deriving Repr
 
 /-- `Parallel2dGeometry.__init__(det_pos_init=p, translation=t)`:
-`det_pos_init += translation`; the array stored is the one `__getitem__` passes on. -/
+`det_pos_init = det_pos_init + translation`. -/
 def par2Ctor (p t : V2 K) : PosState (V2 K) :=
-  { pos := V2.add p t, posArg := some (V2.add p t), shared := true, t := t }
+  { pos := V2.add p t, posArg := some p, t := t }
 
 /-- `Parallel2dGeometry.__getitem__`: calls the constructor with
-`det_pos_init=self.det_pos_init, translation=self.translation`; since the constructor adds
-the translation IN PLACE to the array it is given (the receiver's own `det_pos_init`), the
-receiver changes too.  Returns (receiver after the call, new geometry). -/
+`det_pos_init=self.det_pos_init - self.translation, translation=self.translation`.
+Returns (receiver after the call, new geometry). -/
 def par2Getitem (g : PosState (V2 K)) : PosState (V2 K) × PosState (V2 K) :=
-  let s := par2Ctor g.pos g.t
-  ({ g with pos := s.pos, posArg := s.posArg }, s)
+  (g, par2Ctor (V2.sub g.pos g.t) g.t)
 
 /-- `Parallel3dAxisGeometry.__init__(det_pos_init=arg, translation=t)`; `dflt` is the
-position derived from the axis when `det_pos_init` is not given.  `aliased` says that the
-argument was a float64 `ndarray`, in which case `np.asarray` keeps the object, so
-`_det_pos_init_arg` is the very array that `det_pos_init += translation` updates. -/
-def par3Ctor (dflt : V3 K) (arg : Option (V3 K)) (aliased : Bool) (t : V3 K) :
-    PosState (V3 K) :=
+position derived from the axis when `det_pos_init` is not given.  The translation is added
+out of place, so `_det_pos_init_arg` keeps the argument whatever kind of object it was. -/
+def par3Ctor (dflt : V3 K) (arg : Option (V3 K)) (t : V3 K) : PosState (V3 K) :=
   match arg with
-  | none => { pos := V3.add dflt t, posArg := none, shared := false, t := t }
-  | some p => { pos := V3.add p t, posArg := some (if aliased then V3.add p t else p),
-                shared := aliased, t := t }
+  | none => { pos := V3.add dflt t, posArg := none, t := t }
+  | some p => { pos := V3.add p t, posArg := some p, t := t }
 
-/-- `Parallel3dAxisGeometry.__getitem__`: passes `det_pos_init=self._det_pos_init_arg`
-(an `ndarray` whenever it is not `None`, hence always aliased in the new call, and shared
-with the receiver). Returns (receiver after the call, new geometry). -/
+/-- `Parallel3dAxisGeometry.__getitem__`: passes `det_pos_init=self._det_pos_init_arg,
+translation=self.translation`. Returns (receiver after the call, new geometry). -/
 def par3Getitem (dflt : V3 K) (g : PosState (V3 K)) : PosState (V3 K) × PosState (V3 K) :=
-  let s := par3Ctor dflt g.posArg true g.t
-  ({ g with posArg := s.posArg, pos := if g.shared then s.pos else g.pos }, s)
+  (g, par3Ctor dflt g.posArg g.t)
 
 /-- `frommatrix`: the default initial vectors are multiplied with the left block of
 `init_matrix`, the last column (if present) is the translation. -/
 def par2FromMatrix (M : M2 K) (b : V2 K) : PosState (V2 K) := par2Ctor (M.mulVec ⟨0, 1⟩) b
 def par3FromMatrix (M : M3 K) (b : V3 K) : PosState (V3 K) :=
-  -- `transform_system` returns a fresh float array: aliased
-  par3Ctor V3.zero (some (M.mulVec ⟨0, 1, 0⟩)) true b
+  par3Ctor V3.zero (some (M.mulVec ⟨0, 1, 0⟩)) b
+
+/-! ### the code before the repairs 3a647dc / eee844a (kept to document what the slicing
+theorems are sensitive to; not used by the driver) -/
+
+/-- old state: `shared` = `pos` and `posArg` are one and the same array object -/
+structure PosStateOld (V : Type) where
+  pos : V
+  posArg : Option V
+  shared : Bool
+  t : V
+  deriving Repr
+
+/-- old `Parallel2dGeometry.__init__`: `det_pos_init += translation` IN PLACE; the array
+stored is the one `__getitem__` passed on. -/
+def par2CtorOld (p t : V2 K) : PosStateOld (V2 K) :=
+  { pos := V2.add p t, posArg := some (V2.add p t), shared := true, t := t }
+
+/-- old `Parallel2dGeometry.__getitem__`: `det_pos_init=self.det_pos_init` (already
+absolute, and the receiver's own array, which the constructor then updated in place). -/
+def par2GetitemOld (g : PosStateOld (V2 K)) : PosStateOld (V2 K) × PosStateOld (V2 K) :=
+  let s := par2CtorOld g.pos g.t
+  ({ g with pos := s.pos, posArg := s.posArg }, s)
+
+/-- old `Parallel3dAxisGeometry.__init__`; `aliased` = the argument was a float64 `ndarray`,
+so `_det_pos_init_arg` was the very array that `det_pos_init += translation` updated. -/
+def par3CtorOld (dflt : V3 K) (arg : Option (V3 K)) (aliased : Bool) (t : V3 K) :
+    PosStateOld (V3 K) :=
+  match arg with
+  | none => { pos := V3.add dflt t, posArg := none, shared := false, t := t }
+  | some p => { pos := V3.add p t, posArg := some (if aliased then V3.add p t else p),
+                shared := aliased, t := t }
+
+/-- old `Parallel3dAxisGeometry.__getitem__` (the stored argument is an `ndarray`, hence
+always aliased in the new call and shared with the receiver). -/
+def par3GetitemOld (dflt : V3 K) (g : PosStateOld (V3 K)) :
+    PosStateOld (V3 K) × PosStateOld (V3 K) :=
+  let s := par3CtorOld dflt g.posArg true g.t
+  ({ g with posArg := s.posArg, pos := if g.shared then s.pos else g.pos }, s)
 
 /-! ## factories: detector extent chosen from the volume
 
@@ -479,29 +506,44 @@ def bcastAll : List (List Nat) → Option (List Nat)
 /-- `np.array(x, ndmin=1).shape` -/
 def atLeast1 (s : List Nat) : List Nat := if s.isEmpty then [1] else s
 
-/-- Shape of `detector.surface(dparam)` without the trailing vector axis, as computed by
-the code: flat detectors broadcast the components of `dparam`; the curved 2-parameter
-detectors allocate `np.empty(param[0].shape + (3,))` and assign into it. -/
-def surfShape (curved : Bool) (dshapes : List (List Nat)) : Option (List Nat) :=
-  let ds := dshapes.map atLeast1
-  if curved then
-    match ds with
-    | [p0] => some p0
-    | [p0, p1] =>
-      match bcast p0 p1 with
-      | some b => if b = p0 then some p0 else none
-      | none => none
-    | _ => none
-  else bcastAll ds
+/-- Shape of `detector.surface(dparam)` without the trailing vector axis: all detectors
+broadcast the components of `dparam` (each made at least 1-d). -/
+def surfShape (dshapes : List (List Nat)) : Option (List Nat) :=
+  bcastAll (dshapes.map atLeast1)
 
 /-- Shape returned by `det_point_position(mparam, dparam)` / `det_to_src(…)` (`none` = the
 call raises).  `mshapes` / `dshapes` are the shapes of the components of the motion /
-detector parameter; scalars are `[]`. -/
-def evalShape (mshapes dshapes : List (List Nat)) (ndim : Nat) (curved : Bool) :
-    Option (List Nat) :=
-  match bcastAll (mshapes.map atLeast1), surfShape curved dshapes with
+detector parameter; scalars are `[]`.  The rotation matrices (shape `m + (ndim, ndim)`) and
+surface points (shape `d + (ndim,)`) are padded on the left with axes of length 1 to the
+same number of axes and multiplied by an `einsum` that broadcasts the leading axes. -/
+def evalShape (mshapes dshapes : List (List Nat)) (ndim : Nat) : Option (List Nat) :=
+  match bcastAll (mshapes.map atLeast1), surfShape dshapes with
   | some m, some d =>
-    -- `np.einsum(matrix, [0..r+1], surf, [0..r-1, r+1], [0..r])`: same number of axes needed
+    match bcast m d with
+    | some b =>
+      if bcastAll mshapes = some [] ∧ bcastAll dshapes = some [] then some [ndim]
+      else some (b ++ [ndim])
+    | none => none
+  | _, _ => none
+
+/-- The shape logic before the repairs 5a47c74 / 5bdaf92 (kept to document sensitivity):
+the curved 2-parameter detectors allocated `np.empty(param[0].shape + (3,))`, and the
+`einsum` needed the same number of axes on both sides. -/
+def evalShapeOld (mshapes dshapes : List (List Nat)) (ndim : Nat) (curved : Bool) :
+    Option (List Nat) :=
+  let ds := dshapes.map atLeast1
+  let surf : Option (List Nat) :=
+    if curved then
+      match ds with
+      | [p0] => some p0
+      | [p0, p1] =>
+        match bcast p0 p1 with
+        | some b => if b = p0 then some p0 else none
+        | none => none
+      | _ => none
+    else bcastAll ds
+  match bcastAll (mshapes.map atLeast1), surf with
+  | some m, some d =>
     if m.length ≠ d.length then none
     else
       match bcast m d with
